@@ -365,7 +365,7 @@ func main() {
 	// Section B first: when a helper of Section A is broken, the lint-level witness (a workspace and
 	// the missing / unexpected annotation) is the first failing input, the string-level ones follow
 	sectionB(run, r.Fork(2))
-	if os.Getenv("C05_WS") == "" {
+	if os.Getenv("C05_WS") == "" && !onlyNewFamilies {
 		sectionA(run, r.Fork(1))
 	}
 	reportTiming()
